@@ -625,3 +625,49 @@ package runtime
 //@ ensures C02 real-part: fsame(real(result), c128div_re(real(n), imag(n), real(m), imag(m)))
 //@ ensures C02 imag-part: fsame(imag(result), c128div_im(real(n), imag(n), real(m), imag(m)))
 //@ modifies nothing
+
+// ---- C03 / C06: operations on a nil (or empty) map. These contracts specify
+// the functions ONLY under the stated precondition (opt prune: branches whose
+// path condition is unsatisfiable under it are not explored); the general case
+// is covered by the bounded finite-map stand-in.
+
+//@ func mapassign
+//@ props C03
+//@ opt prune yes
+//@ requires nilmap: h == nil
+//@ panics_iff C03 nil-map-write: true
+//@ ensures_panic C03 msg: panicmsg() == "assignment to entry in nil map"
+
+//@ func mapaccess1
+//@ props C06
+//@ opt prune yes
+//@ requires nil-or-empty: h == nil || h.count == 0
+//@ requires plain-hash: t != nil && (t.Flags & 16) == 0
+//@ ensures C06 zero-value: result == addrof(zeroVal)
+//@ modifies nothing
+
+//@ func mapaccess2
+//@ props C06
+//@ opt prune yes
+//@ requires nil-or-empty: h == nil || h.count == 0
+//@ requires plain-hash: t != nil && (t.Flags & 16) == 0
+//@ ensures C06 absent: result0 == addrof(zeroVal) && !result1
+//@ modifies nothing
+
+//@ func mapdelete
+//@ props C06
+//@ opt prune yes
+//@ requires nil-or-empty: h == nil || h.count == 0
+//@ requires plain-hash: t != nil && (t.Flags & 16) == 0
+//@ modifies nothing
+
+//@ func mapclear
+//@ props C06
+//@ opt prune yes
+//@ requires nil-or-empty: h == nil || h.count == 0
+//@ modifies nothing
+
+//@ func MapLen
+//@ props C06
+//@ ensures C06 len: h == nil ? result == 0 : result == h.count
+//@ modifies nothing
